@@ -220,7 +220,7 @@ def sdt_len(f, rep):
             I = new_interp(f)
             sv = I.sym_value('sdt::Sdt', 'self')
             pre_len = seqlen(sv.fields['data'].segs)
-            I.st.ranges[pre_len] = (36, (1 << 64) - 1)      # invariant len >= 36, shown below (Sdt-minlen)
+            I.st.ranges[pre_len] = (36, (1 << 63) - 1)      # invariant len >= 36, shown below (Sdt-minlen)
             args = [_sdt_arg(I, n, t, variant) for n, t in params_of(b)[1:]]
             run_fn(I, b['def'], [RefV(Cell(sv), True)] + args, tsub={'T': variant} if variant else None)
             rep.analysed.add(b['def'])
